@@ -847,7 +847,13 @@ func crashDropAll(c *Ctx, witness bool) error {
 				if c.Rng.Intn(6) == 0 {
 					h.set1(&nextT, k, nil)
 				} else {
-					h.set1(&nextT, k, []byte(fmt.Sprintf("v%d", s)))
+					v := []byte(fmt.Sprintf("v%d", s))
+					if c.Rng.Intn(2) == 0 {
+						// a value-log value: tables keep a pointer, DropAll deletes the value-log
+						// files: a crash between the two steps must not leave a dangling pointer
+						v = append(v, bytes.Repeat([]byte{'.'}, 40)...)
+					}
+					h.set1(&nextT, k, v)
 				}
 			case r < 9:
 				h.flush()
@@ -889,7 +895,7 @@ func crashDropAll(c *Ctx, witness bool) error {
 	snap("prepared")
 	badger.VerifSetController(&badger.VerifController{
 		Point: func(name string, args ...uint64) {
-			if strings.HasPrefix(name, "dropall.") && name != "dropall.vlog-dropped" {
+			if strings.HasPrefix(name, "dropall.") {
 				snap(strings.TrimPrefix(name, "dropall."))
 			}
 		},
@@ -902,8 +908,8 @@ func crashDropAll(c *Ctx, witness bool) error {
 	if cerr != nil {
 		return cerr
 	}
-	if len(stages) != 4 {
-		return fmt.Errorf("DropAll hook points seen: %v (expected prepared + 3 dropall.* points)", stages)
+	if len(stages) != 5 {
+		return fmt.Errorf("DropAll hook points seen: %v (expected prepared + 4 dropall.* points)", stages)
 	}
 	for _, st := range stages {
 		cut := crashStages[st]
